@@ -215,12 +215,16 @@ func NewSSet() SSet {
 }
 
 func SSetHasKey(st SSet, key string) bool {
-	_, ok := frt.Destr2(dict.TryFind(st.Dict, key))
-	return ok
+	v, ok := frt.Destr2(dict.TryFind(st.Dict, key))
+	return (ok && v)
 }
 
 func SSetPut(st SSet, key string) {
 	dict.Add(st.Dict, key, true)
+}
+
+func SSetRemove(st SSet, key string) {
+	dict.Add(st.Dict, key, false)
 }
 
 func collectTVarFTypeWithSet(visited SSet, ft FType) []string {
@@ -454,7 +458,9 @@ func transTVFTypeWithSet(visited SSet, transTV func(TypeVar) FType, ftp FType) F
 			return ftp
 		}), (func() FType {
 			SSetPut(visited, rt.Name)
-			return frt.Pipe(transRecType(recurse, rt), New_FType_FRecord)
+			nrt := transRecType(recurse, rt)
+			SSetRemove(visited, rt.Name)
+			return New_FType_FRecord(nrt)
 		}))
 	case FType_FUnion:
 		ut := _v17.Value
@@ -479,6 +485,7 @@ func transTVFTypeWithSet(visited SSet, transTV func(TypeVar) FType, ftp FType) F
 			nut := UnionType{Name: ut.Name, Targs: ntargs}
 			nui := UnionTypeInfo{Cases: ncases}
 			updateUniInfo(nut, nui)
+			SSetRemove(visited, uname)
 			return New_FType_FUnion(nut)
 		}))
 	default:
